@@ -1050,13 +1050,21 @@ class PolarsModel(data_algebra.data_model.DataModel):
                 input_right = input_right.with_columns(
                     [pl.col(c).alias(f"{c}_da_join_tmp_key") for c in orphan_keys]
                 )
-            res = inputs[0].join(
-                input_right,
-                left_on=op.on_a,
-                right_on=op.on_b,
-                how=how,
-                suffix="_da_right_tmp",
-            )
+            if how == "cross":
+                # Polars rejects key arguments (even empty ones) on a cross join
+                res = inputs[0].join(
+                    input_right,
+                    how=how,
+                    suffix="_da_right_tmp",
+                )
+            else:
+                res = inputs[0].join(
+                    input_right,
+                    left_on=op.on_a,
+                    right_on=op.on_b,
+                    how=how,
+                    suffix="_da_right_tmp",
+                )
             if len(coalesce_columns) > 0:
                 res = res.with_columns(
                     [
